@@ -87,7 +87,7 @@ CHECKS["C05"] = dict(
     defs=["-DLINK_FAULTS=1", "-w"],
     harness=["harness/C04_C05_link.cpp"],
     igris=_LINK_IGRIS,
-    runs=dict(quick=30000, thorough=1500000),
+    runs=dict(quick=30000, thorough=500000),
     design_ref="DESIGN.md 4.3, 5 (C05), 11 A.2",
     technique="deterministic link simulation with fault injection (drop, truncate, flip, replace/insert marker bytes, duplicate, noise, CRC-completing bytes, "
               "receiver restart, undersized buffers); per-traffic enumeration of every single-fault offset; reference unescape/CRC oracle evaluated at every byte",
@@ -167,7 +167,7 @@ CHECKS["C01"] = dict(
     rule="one run = one seeded op history on one list family. non-trivial = at least two lists were non-empty at once, a move happened and a linked node died "
          "(slist/hlist: a pop and a removal happened); distinct = distinct hash of the executed op trace",
     simtime_units="list operations",
-    probes=["self_move", "move_to_neighbour", "single_element_move", "splice_into_nonempty", "splice_from_empty", "destroy_linked_head_neighbour", "second_removal", "reinsert_linked_node", "sorted_insert", "insert_instead", "head_takeover", "takeover_of_empty_list", "insert_instead_of_unlinked"],
+    probes=["self_move", "move_to_neighbour", "single_element_move", "splice_into_nonempty", "splice_from_empty", "destroy_linked_head_neighbour", "second_removal", "reinsert_linked_node", "sorted_insert", "insert_instead", "head_takeover", "takeover_of_empty_list", "insert_instead_of_unlinked", "removal_during_safe_iteration"],
     assumptions=["single caller at a time", "freeing a still-linked C node is caller misuse and is not generated"],
 )
 
